@@ -118,11 +118,11 @@ Section Par2RepairComplete.
   Proof.
     induction fuel as [|fuel IH]; intros buf setid found f sid f' Hf H; cbn [read_file_go] in H; [discriminate H|].
     destruct (read_next_packet md5 buf) as [| |psid ptype body rest].
-    - destruct (negb found); [discriminate H|].
-      destruct (pf_client f) as [cl|]; [|discriminate H].
-      destruct setid as [sid0|]; [|discriminate H].
-      injection H as _ <-. exact Hf.
-    - discriminate H.
+    - apply rf_finish_ok in H. rewrite H. exact Hf.
+    - (* damaged packet: skipped *)
+      destruct (find_magic (tl buf)) as [rest|].
+      + eapply IH; [exact Hf|exact H].
+      + apply rf_finish_ok in H. rewrite H. exact Hf.
     - hd_destruct H.
       { eapply IH; [exact Hf|exact H]. }
       destruct (bytes_eqb ptype TYPE_CREATOR).
